@@ -34,7 +34,8 @@ pub struct Case {
     pub uv: bool,
     pub algs_supported: bool,
     pub pin_auth: bool,
-    /// 0 absent, 1 empty, 2 names a miss, 3 names held credential k, 4 names a credential of the other RP
+    /// 0 absent, 1 empty, 2 names a miss, 3 names held credential k, 4 names a credential of the other RP,
+    /// 5 names held credential k with an unknown descriptor type plus a well-typed miss, 6 only unknown-typed held ids
     pub list: u8,
     pub list_k: u8,
     pub prf: u8,
@@ -67,12 +68,18 @@ fn build(c: &Case) -> (Authenticator<RefStore, ScriptedUv>, RefStore, ScriptedUv
 fn list(c: &Case) -> Option<Vec<passkey_types::webauthn::PublicKeyCredentialDescriptor>> {
     let n = c.contents.len();
     let rp = c.rp % 2;
-    match c.list % 5 {
+    let own = |n: usize| -> Vec<usize> { (0..n).filter(|k| c.contents[*k].0 % 2 == rp).collect() };
+    match c.list % 7 {
+        5 => {
+            let o = own(n);
+            Some(vec![cer::descriptor_ty(&o.get(c.list_k as usize % o.len().max(1)).map(|k| cred_id(*k)).unwrap_or(b"nothing-held".to_vec()), false), cer::descriptor(b"well-typed-miss")])
+        }
+        6 => Some(own(n).iter().map(|k| cer::descriptor_ty(&cred_id(*k), false)).collect()),
         0 => None,
         1 => Some(vec![]),
         2 => Some(vec![cer::descriptor(b"not-held-anywhere")]),
         3 => {
-            let own: Vec<usize> = (0..n).filter(|k| c.contents[*k].0 % 2 == rp).collect();
+            let own: Vec<usize> = own(n);
             Some(vec![cer::descriptor(&own.get(c.list_k as usize % own.len().max(1)).map(|k| cred_id(*k)).unwrap_or(b"nothing-held".to_vec()))])
         }
         _ => {
@@ -143,6 +150,32 @@ pub fn check(c: &Case) -> Result<&'static str, String> {
             let y = block_on(Ctap2Api::get_info(&b));
             if x != y {
                 return Err(format!("getInfo through the trait differs from the direct call: {y:?} vs {x:?}"));
+            }
+            // the same again after the state getInfo reports has changed (capabilities of the user validation
+            // method, store capability)
+            let mut s2 = c.script.clone();
+            s2.verification_enabled = match s2.verification_enabled {
+                Some(true) => Some(false),
+                Some(false) => None,
+                None => Some(true),
+            };
+            s2.presence_enabled = !s2.presence_enabled;
+            ua.set(s2.clone());
+            ub.set(s2);
+            let nd = match c.disc {
+                Disc::Full => Disc::OnlyNonDiscoverable,
+                Disc::OnlyNonDiscoverable => Disc::ForcedDiscoverable,
+                Disc::ForcedDiscoverable => Disc::Full,
+            };
+            sa.0.lock().unwrap().disc = nd;
+            sb.0.lock().unwrap().disc = nd;
+            let x2 = block_on(a.get_info());
+            let y2 = block_on(Ctap2Api::get_info(&b));
+            if x2 != y2 {
+                return Err(format!("getInfo through the trait differs from the direct call after the authenticator's capabilities changed: {y2:?} vs {x2:?}"));
+            }
+            if x2 == x {
+                return Err("harness: the capability change is not reflected by the direct getInfo".into());
             }
             class = "getInfo";
         }
@@ -241,7 +274,7 @@ fn strategy() -> impl Strategy<Value = Case> {
         (prop_oneof![1 => Just(0u8), 4 => Just(1u8), 5 => Just(2u8)], prop_oneof![Just(HmacCfg::None), Just(HmacCfg::UvOnly), Just(HmacCfg::UvOnlyMc), Just(HmacCfg::WithoutUv), Just(HmacCfg::WithoutUvMc)], any::<bool>(), prop_oneof![3 => Just(Disc::Full), 1 => Just(Disc::OnlyNonDiscoverable), 2 => Just(Disc::ForcedDiscoverable)]),
         proptest::collection::vec((0u8..2, prop_oneof![Just(None), Just(Some(0u32)), Just(Some(77)), Just(Some(u32::MAX))], any::<bool>(), 0u8..3), 0..5),
         script,
-        (0u8..2, proptest::bool::weighted(0.2), proptest::bool::weighted(0.85), any::<bool>(), proptest::bool::weighted(0.85), proptest::bool::weighted(0.15), 0u8..5, any::<u8>(), 0u8..3),
+        (0u8..2, proptest::bool::weighted(0.2), proptest::bool::weighted(0.85), any::<bool>(), proptest::bool::weighted(0.85), proptest::bool::weighted(0.15), 0u8..7, any::<u8>(), 0u8..3),
     )
         .prop_map(|((op, hmac, counter_cfg, disc), contents, script, (rp, rk, up, uv, algs_supported, pin_auth, list, list_k, prf))| Case { op, hmac, counter_cfg, disc, contents, script, rp, rk, up, uv, algs_supported, pin_auth, list, list_k, prf })
 }
